@@ -317,7 +317,7 @@ static void BinaryGateways(const Case & c, const std::string & stream, const std
       StreamGw & s = g_bin[gi];
       // a declared body of 16 MB .. 4 GB makes an unlimited gateway allocate that much before the body arrives (by design: that is what
       // SetMaxIncomingMessageSize is for); exercised for the first bases only, it costs 0.1 s each under AddressSanitizer
-      if ((s.limit == MUSCLE_NO_LIMIT)&&(HugeFrame(stream))&&(c.base > 2)) continue;
+      if ((s.limit == MUSCLE_NO_LIMIT)&&(HugeFrame(stream))&&((c.base > 1)||(gi != 0))) continue;
       for (int mode=0; mode<3; mode++)
       {
          if (((modes >> mode) & 1) == 0) continue;
@@ -357,7 +357,7 @@ static void WebSocketServer(const Case & c, const std::string & frameStream, con
    }
    Arm(wrap ? "WebSocketMessageIOGateway(server, slave MessageIOGateway)" : "WebSocketMessageIOGateway(server, raw frames)");
    WebSocketMessageIOGateway gw; FeedIO * io = new FeedIO; gw.SetDataIO(DataIORef(io));
-   if (wrap) gw.SetSlaveGateway(AbstractMessageIOGatewayRef(new MessageIOGateway));
+   if (wrap) {MessageIOGateway * sl = new MessageIOGateway; sl->SetMaxIncomingMessageSize(1<<20); gw.SetSlaveGateway(AbstractMessageIOGatewayRef(sl));}
    const std::string stream = g_wsRequest + (wrap ? WsFrame(frameStream) : frameStream);
    io->Set(stream, mode);
    const Pumped p = Pump(gw, io, NULL);
@@ -479,6 +479,9 @@ static void TunnelPackets(const Case & c, bool mini)
    for (int cfg=0; cfg<4; cfg++)
    {
       const char * nm = mini ? "MiniPacketTunnelIOGateway" : "PacketTunnelIOGateway";
+      // a declared total size of 16 MB .. 4 GB makes a tunnel without SetMaxIncomingMessageSize() allocate that much (by design); it costs
+      // ~0.3 s each under AddressSanitizer, so only the first base does it, and only in the plain configuration
+      if ((!mini)&&(c.wk == "totallen")&&(c.w.size() == 4)&&(R32(c.w, 0) >= (1u<<24))&&(cfg != 2)&&(!((cfg == 0)&&(c.base == 1)))) continue;
       Arm(nm);
       AbstractMessageIOGatewayRef slave; if (cfg != 3) slave.SetRef(new MessageIOGateway);
       AbstractMessageIOGatewayRef gw; PktIO * io = new PktIO(1400);
@@ -535,14 +538,20 @@ static void RunCase(const Case & c, const std::string & tier)
       const std::string validWant = (baseBytes.size() >= 8) ? baseBytes.substr(8) : std::string();
       BinaryGateways(c, c.b, want, (g_baseMsg.find(c.base) != g_baseMsg.end()) ? baseBytes : std::string(), validWant, false, false, 7);
       WebSocketServer(c, c.b, want, true, (h%2 == 0) ? 0 : 2);
-      if (c.b.size() <= 1168) {Case cc = c; if (cc.v == "I") cc.v = "R"; Tunnels(cc, c.b, want);}     // in a packet there is no "later": an incomplete frame is refused
+      if (c.b.size() <= 1168)
+      {
+         // in a packet there is no "later": an incomplete frame is refused; and the packet path of MessageIOGateway does not look at the
+         // encoding id unless it names a zlib level (GetBodySize() is a stream-mode step; the documentation does not say) - Either
+         Case cc = c; if (cc.v == "I") cc.v = "R"; if (cc.why == "encoding-id") cc.v = "E";
+         Tunnels(cc, c.b, want);
+      }
       if (thorough || (h%4 == 0)) ByteGateways(c.b, 0);
       {
          // a plain frame is also valid input for the templating gateway (its two flag bits are the top bits of the two header words)
          Arm("TemplatingMessageIOGateway(plain frames)");
          static TemplatingMessageIOGateway * gw = NULL; static FeedIO * io = NULL;
          if (gw == NULL) {gw = new TemplatingMessageIOGateway(1000000); io = new FeedIO; gw->SetDataIO(DataIORef(io));}
-         if (!((HugeFrame(c.b))&&(c.base > 2)&&((R32(c.b, 0) & 0x7FFFFFFFu) >= (1u<<24))))
+         if (!((HugeFrame(c.b))&&((c.base > 1)||(h%3 != 0))&&((R32(c.b, 0) & 0x7FFFFFFFu) >= (1u<<24))))
          {
             gw->Reset(); io->Set(c.b, (h%3 == 0) ? 2 : 0);
             const Pumped p = Pump(*gw, io, NULL);
